@@ -55,9 +55,9 @@ def glabel : P (Option (GLabel Int)) := do
   if len < 0 then pure none else
   let cs ← manyN len.toNat gchar
   let v ← int
-  let valid : Res Bool :=
-    if v == 1 then .ok true else if v == 0 then .ok false else .error (.lib .lexerError)
-  pure (some { chars := cs, valid := valid })
+  let verdict : RegexVerdict :=
+    if v == 1 then .valid else if v == 0 then .invalid else .lexerError
+  pure (some { chars := cs, verdict := verdict })
 
 def gnfa : P (GNFA Int Int) := do
   let n ← nat
